@@ -10,7 +10,7 @@ HOMES = ['func', 'bridge', 'op', 'derived', 'state', 'transition', 'portop', 'po
 def corpus(tier, seed):
     rnd = random.Random(seed)
     progs = []
-    n = 120 if tier == 'quick' else 2500
+    n = 200 if tier == 'quick' else 3000
     for k in range(n):
         home = HOMES[k % 8]
         g = oalgen.Gen(random.Random(rnd.randint(0, 10 ** 9)), maxdepth=rnd.choice([2, 3, 3]), parens=0.1, syntax_only=False)
@@ -19,6 +19,7 @@ def corpus(tier, seed):
         g.events = True
         g.arrays = True
         g.oddstrings = True
+        g.more = True
         # every second model lives in a component with ports (the port homes always do)
         g.ports = home in ('portop', 'portsig') or k % 2 == 0
         g.casevars = (k % 3 == 1)
